@@ -341,3 +341,66 @@ func (o iotest1) Read(p []byte) (int, error) {
 	}
 	return o.r.Read(p[:1])
 }
+
+func init() { commands["trylocks"] = cmdTryLocks }
+
+// trylocks: a try block whose body and handlers start tasks that take the SAME named resource (pip:run --wlock /
+// --rlock).  A task gives its resources back when it ends -- also when one of its commands fails -- so the handlers
+// can take them: "finally always, fail iff the body failed, success iff it did not", and the run ends (watchdog).
+func cmdTryLocks(args []string) error {
+	fl := flag.NewFlagSet("trylocks", flag.ExitOnError)
+	fl.Parse(args)
+	byKey := map[string]int{}
+	examples := map[string][]map[string]string{}
+	fail := func(key, op, what string) {
+		byKey[key]++
+		if len(examples[key]) < 3 {
+			examples[key] = append(examples[key], map[string]string{"key": key, "op": op, "backend": "pip:try", "what": what})
+		}
+	}
+	executed := 0
+	for _, bodyFails := range []bool{true, false} {
+		for _, lock := range []string{"wlock", "rlock"} {
+			executed++
+			script := "pip:try --name=t --silent=false --body=<<B\npip:run --name=n --" + lock + "=res --silent=false --body=\"probe --id=n1\"\nB --success=<<S\npip:run --name=hs --wlock=res --silent=false --body=\"probe --id=s1\"\nS --fail=<<F\npip:run --name=hf --wlock=res --silent=false --body=\"probe --id=f1\"\nF --finally=<<G\npip:run --name=hg --" + lock + "=res --silent=false --body=\"probe --id=y1\"\nG\n"
+			buf := &lockedWriter{}
+			wd, err := pipx.NewWorld(buf, script, nil)
+			if err != nil {
+				return err
+			}
+			wd.SetProbe("n1", bodyFails, 0)
+			done := make(chan struct{})
+			go func() {
+				wd.Boot.Run()
+				wd.App.Scopes().App().Wait()
+				close(done)
+			}()
+			desc := fmt.Sprintf("body task (--%s=res) fails=%v; handlers lock the same resource", lock, bodyFails)
+			select {
+			case <-done:
+			case <-wdog.After(15 * time.Second):
+			}
+			ended := map[string]bool{}
+			for _, l := range strings.Split(buf.String(), "\n") {
+				var ev struct {
+					Ev string `json:"ev"`
+					ID string `json:"id"`
+				}
+				if json.Unmarshal([]byte(l), &ev) == nil && ev.Ev == "end" {
+					ended[ev.ID] = true
+				}
+			}
+			want := map[string]bool{"n1": true, "y1": true, "f1": bodyFails, "s1": !bodyFails}
+			for id, w := range want {
+				if ended[id] != w {
+					fail("try-with-locks", desc, fmt.Sprintf("%s: command %s ran=%v, specification %v (commands that ran: %v)", desc, id, ended[id], w, ended))
+					break
+				}
+			}
+		}
+	}
+	out := map[string]interface{}{"executed": executed, "failures_by_key": byKey, "examples": examples, "samples": []string{}}
+	b, _ := json.Marshal(out)
+	fmt.Println(string(b))
+	return nil
+}
